@@ -26,7 +26,7 @@ MD_ALPHABET = [[0, 0], [0, 1], [1, 0], [1, 1]]
 def alphabet(act_kind, A):
     if act_kind == "discrete":
         return list(range(A))
-    if act_kind == "box":
+    if act_kind in ("box", "boxhalf"):
         return BOX_ALPHABET
     if act_kind == "boxvec":
         return BOXVEC_ALPHABET
@@ -292,8 +292,23 @@ def explore(ctx: Ctx):
     # truncation bootstrap and the final bootstrap becomes observable
     plan["S2-discrete-PPO-stateful-value"] = emit("PPO", family(2, 2, shaped=False, limits=[(0, 0), (0, 2), (0, 3)]), scripts_full("discrete", 2, 4), 1, 4, keys[:1], VS=3.0)
     plan["S2-discrete-A2C-E2-stateful-value"] = emit("A2C", family(2, 2, shaped=False, limits=[(0, 2)]), scripts_full("discrete", 2, 3), 2, 3, keys[:1], VS=3.0)
+    # a critic that is not finite on terminal observations (the policy never acts there, a diverged simulation's last observation
+    # overflows an MLP critic): a step that must not bootstrap stores exactly the environment's reward - 0 * inf would be NaN
+    from mc.policies import default_V
+
+    def inf_at_terminal(fam):
+        out = []
+        for tab in fam:
+            if any(tab["term"]):
+                out.append(dict(tab, V=[float("inf") if tm else float(v) for v, tm in zip(default_V(tab["S"]).tolist(), tab["term"])]))
+        return out
+
+    plan["S2-discrete-PPO-inf-terminal-value"] = emit("PPO", inf_at_terminal(family(2, 2, shaped=False, limits=[(0, 0), (0, 2)])), scripts_full("discrete", 2, 3), 1, 3, keys[:1])
+    plan["S3-discrete-A2C-E2-inf-terminal-value"] = emit("A2C", inf_at_terminal(family(3, 2, shaped=True, limits=[(0, 3)])), scripts_full("discrete", 2, 3), 2, 3, keys[:1])
     # bounded Box actions: scripts over {lo-1, lo, 0, hi, hi+1}
     plan["S2-box-PPO"] = emit("PPO", family(2, 2, shaped=False, limits=[(0, 0), (0, 2), (2, 0)], act_kind="box"), scripts_full("box", 2, 3), 1, 3, keys[:1])
+    # a Box bounded on ONE side only ([-1, inf)): the finite bound must still be enforced (-2 is clipped to -1, +2 stays +2)
+    plan["S2-boxhalf-PPO"] = emit("PPO", family(2, 2, shaped=False, limits=[(0, 0), (0, 2)], act_kind="boxhalf"), scripts_full("boxhalf", 2, 3), 1, 3, keys[:1])
     plan["S2-boxvec-PPO-E2"] = emit("PPO", family(2, 2, shaped=True, limits=[(0, 0), (0, 2)], act_kind="boxvec"), scripts_full("boxvec", 2, 3), 2, 3, keys[:1])
     plan["S2-multidiscrete-PPO"] = emit("PPO", family(2, 2, shaped=True, limits=[(0, 2)], act_kind="multidiscrete"), scripts_full("multidiscrete", 2, 3), 1, 3, keys[:1])
     plan["S2-multibinary-A2C"] = emit("A2C", family(2, 2, shaped=True, limits=[(0, 2)], act_kind="multibinary"), scripts_full("multibinary", 2, 3), 1, 3, keys[:1])
